@@ -755,10 +755,10 @@ func (c sCol) json() interface{} {
 	return col
 }
 
-func ip(i int) *int          { return &i }
-func fp(f float64) *float64  { return &f }
-func sp(s string) *string    { return &s }
-func bp(b bool) *bool        { return &b }
+func ip(i int) *int             { return &i }
+func fp(f float64) *float64     { return &f }
+func sp(s string) *string       { return &s }
+func bp(b bool) *bool           { return &b }
 func (g wgen) maybe(n int) bool { return g.p.Chance(1, n) }
 
 func (g wgen) sbase(tables []string) sBase {
